@@ -11,7 +11,11 @@ from . import terms as T
 # column -> type (the harness table t; id is the primary key and never used in filters)
 SCHEMA = {"a": "int", "b": "int", "c": "int", "s": "str", "u": "str", "d": "datetime",
           "flag": "bool", "f": "float"}
-EXTRA_SCHEMA = {"g": "guid", "dd": "date"}
+EXTRA_SCHEMA = {"g": "guid", "dd": "date", "m": "decimal"}
+# literals compared with the fixed-point column m (5 digits, 2 decimals): some carry more
+# digits than the column keeps, some sit exactly on / next to stored values
+DEC_LITS = ["100.12", "100.125", "100.115", "0.3", "0.30000000000000004", "0.2999", "-1.5", "-1.505",
+            "7.25", "7.254", "999.99", "999.994", "1000", "7", "0"]
 
 INT_LITS = ["-3", "-1", "0", "1", "2", "7"]
 FLOAT_LITS = ["0.5", "-1.5", "2.0", "2.5", "7.25", "-0.5"]
@@ -128,6 +132,9 @@ def gen_lit(rng, p, typ):
     if isinstance(typ, tuple):
         n = rng.randint(1, p.max_list)
         return ("list", tuple(gen_lit(rng, p, typ[1]) for _ in range(n)))
+    if typ == "decimal":
+        v = rng.choice(DEC_LITS)
+        return T.lit("float" if "." in v else "int", v)
     return T.lit(typ, rng.choice(LITS[typ]))
 
 
